@@ -171,3 +171,29 @@ package processors
 //@ loop 1 invariant [others-untouched] forall(k, int, implies(0 <= k && k < len(properties) && !FuncByPtr(properties[k]) && !FuncByIface(properties[k]), properties[k].Injects == old(properties[k].Injects)), properties[k]) && forall(p, *component_definition.Property, implies(forall(k, int, implies(0 <= k && k < len(properties), properties[k] != p)), p.Injects == old(p.Injects)))
 //@ loop 1 invariant [old-lists-kept] forall(k, int, forall(i, int, implies(0 <= k && k < len(properties) && 0 <= i && i < len(old(properties[k].Injects)), oldat(old(properties[k].Injects), i) == old(properties[k].Injects)[i])))
 //@ loop 2 invariant [options-are-method-predicates] 0 <= _done && _done <= len(args) && forall(j, int, implies(0 <= j && j < len(options), options[j] != nil && forall(m, *component_definition.Meta, implies(callpre(options[j], m) && call(options[j], m), RHasMethod(RTypeOf(m.Value), prop.TagVal)) && callpre(options[j], m) == MetaOK(m)))) && (backing(options) == 0 || backing(options) > old(top()))
+
+// ---- configuration values (C09): required values must be present, optional empty ones are skipped untouched ----------
+//@ spec func ValuePoint(p *component_definition.Property) bool = p.Tag == definition.ValueTag
+//@ spec func PrefixPoint(p *component_definition.Property) bool = p.Tag == definition.PrefixTag
+
+//@ func (*valueAwarePostProcessors).PostProcessProperties
+//@ property C09
+//@ requires [properties-wellformed] forall(k, int, implies(0 <= k && k < len(properties), PointOK(properties[k]) && properties[k].args != nil), properties[k])
+//@ assigns RMem, RTop
+//@ ensures [required-missing-errors] implies(result1 == nil, forall(k, int, implies(0 <= k && k < len(properties) && ValuePoint(properties[k]) && properties[k].TagVal == "", !properties[k].IsRequired()), properties[k]))
+//@ ensures [optional-empty-value-skipped] forall(l, int, implies(l <= old(RTop) && forall(k, int, implies(0 <= k && k < len(properties) && ValuePoint(properties[k]) && properties[k].TagVal != "", l != RLoc(properties[k].Value))), RMem[l] == old(RMem[l])))
+//@ loop 1 invariant [bounds] 0 <= _done && _done <= len(properties) && RTop >= old(RTop)
+//@ loop 1 invariant [required-present-so-far] forall(k, int, implies(0 <= k && k < _done && ValuePoint(properties[k]) && properties[k].TagVal == "", !properties[k].IsRequired()), properties[k])
+//@ loop 1 invariant [only-valued-points-written] forall(l, int, implies(l <= old(RTop) && forall(k, int, implies(0 <= k && k < _done && ValuePoint(properties[k]) && properties[k].TagVal != "", l != RLoc(properties[k].Value))), RMem[l] == old(RMem[l])))
+
+//@ func (*propertiesAwarePostProcessors).PostProcessProperties
+//@ property C09
+//@ requires [configure-set] c.Configure != nil
+//@ requires [properties-wellformed] forall(k, int, implies(0 <= k && k < len(properties), PointOK(properties[k]) && properties[k].args != nil && properties[k].Configurations != nil), properties[k])
+//@ requires [config-maps-separate] forall(k, int, forall(j, int, implies(0 <= k && k < len(properties) && 0 <= j && j < len(properties), properties[k].args != properties[j].Configurations), properties[j]), properties[k])
+//@ assigns RMem, RTop, any(mapcontents(properties[0].Configurations))
+//@ ensures [required-missing-errors] implies(result1 == nil, forall(k, int, implies(0 <= k && k < len(properties) && PrefixPoint(properties[k]) && CfgGet(properties[k].TagVal) == nil, !properties[k].IsRequired()), properties[k]))
+//@ ensures [optional-missing-config-skipped] forall(l, int, implies(l <= old(RTop) && forall(k, int, implies(0 <= k && k < len(properties) && PrefixPoint(properties[k]) && CfgGet(properties[k].TagVal) != nil, l != RLoc(properties[k].Value))), RMem[l] == old(RMem[l])))
+//@ loop 1 invariant [bounds] 0 <= _done && _done <= len(properties) && RTop >= old(RTop)
+//@ loop 1 invariant [required-present-so-far] forall(k, int, implies(0 <= k && k < _done && PrefixPoint(properties[k]) && CfgGet(properties[k].TagVal) == nil, !properties[k].IsRequired()), properties[k])
+//@ loop 1 invariant [only-configured-points-written] forall(l, int, implies(l <= old(RTop) && forall(k, int, implies(0 <= k && k < _done && PrefixPoint(properties[k]) && CfgGet(properties[k].TagVal) != nil, l != RLoc(properties[k].Value))), RMem[l] == old(RMem[l])))
